@@ -41,4 +41,13 @@ PROPS = {
   "level_note": "Trusted: Lean kernel; extractor; harness+driver; ServeMux, net/url, path.Clean.",
   "assumptions": ["the registry holds one entry per service name (C15)"],
  },
+ "C11": {
+  "fact_files": ["httpgrpc/protocol_versions.go", "httpgrpc/codes.go"],
+  "trusted_base": ["mime.ParseMediaType, codec Unmarshal/Marshal, asMetadata's base64 failure (externals passed on the op line)",
+                   "http.ServeMux answers 404 for unknown paths", "http.Error / ResponseWriter"],
+  "partial": ["the JSON codec itself (protojson) and the mux are exercised, not modelled"],
+  "level_text": "Proof: Lean theorems over the HttpServer decision model for every request and every handler behaviour/script: handler at most once, handler only if POST + supported media type + decodable headers (+ readable body), 405/415/400 precedence with Allow: POST, undecodable message => InvalidArgument without application code, JSON decided identically to protobuf, and for every handler script a streaming reply is data frames followed by exactly one trailer frame unless a write failed. Accepted media types and the code tables are regenerated from source. Tie: randomised requests of all shapes through the real Server with call counters and reply-frame parsing, compared line by line with the model; JSON/proto parity and 404 end to end.",
+  "level_note": "Trusted: Lean kernel; extractor; harness+driver; mime, codecs, ServeMux, ResponseWriter.",
+  "assumptions": ["the request context is live when the renderer runs (the 499 rule is C14's)"],
+ },
 }
